@@ -27,6 +27,11 @@ type out struct {
 }
 
 func main() {
+	race := false
+	if len(os.Args) > 2 && os.Args[1] == "-race" {
+		race = true
+		os.Args = os.Args[1:]
+	}
 	f, err := os.Open(os.Args[1])
 	if err != nil {
 		fmt.Println(err)
@@ -40,6 +45,13 @@ func main() {
 		var x in
 		if err := json.Unmarshal(sc.Bytes(), &x); err != nil {
 			fmt.Fprintln(w, `{"outcome":"badinput"}`)
+			continue
+		}
+		if race {
+			o := zzverif.RaceNative(x.Harness, x.Args, x.Vector, x.Props, 8, 200)
+			b, _ := json.Marshal(out{o, nil})
+			w.Write(b)
+			w.WriteByte('\n')
 			continue
 		}
 		o, obs := zzverif.RunNative(x.Harness, x.Args, x.Vector, x.Props)
